@@ -121,10 +121,14 @@ where
     self.shard_guard.insert(self.key, new_cache_entry);
     drop(self.shard_guard);
 
+    #[cfg(excsn_fibre_verif)]
+    crate::verif_sched::point("entry:before_event_push");
     let _ = shard
       .event_buffer_tx
       .try_send(AccessEvent::Write(key_for_event, cost));
 
+    #[cfg(excsn_fibre_verif)]
+    crate::verif_sched::point("entry:before_cost_add");
     self
       .shared
       .metrics
